@@ -152,6 +152,18 @@ func runC19Case(c *fw.Ctx, id string, cs c19Case) {
 			}
 			return nil
 		}
+	case "during-establish-backoff":
+		// rs1 refuses connections: the regions it hosts keep failing to be
+		// established; Close arrives while an establisher sleeps between attempts
+		cl.DialFault = func(addr string, n int) error {
+			if addr == "rs1:16020" {
+				if n == 7 {
+					fire()
+				}
+				return errors.New("connection refused (injected)")
+			}
+			return nil
+		}
 	case "after-lonely-split":
 		// handled below: a connection that has lost all its regions before Close
 	case "zk-blocked":
@@ -194,7 +206,7 @@ func runC19Case(c *fw.Ctx, id string, cs c19Case) {
 		ctx := context.Background()
 		key := string([]byte{byte('a' + rr.Intn(26)), byte('0' + rr.Intn(10))})
 		opid := fmt.Sprintf("%s%s-%d-%d", sim.OpIDPrefix, id, g, k)
-		kinds := []string{"get", "put", "batch", "scan", "get", "put", "batch", "scan", "cache-regions"}
+		kinds := []string{"get", "put", "batch", "scan", "get", "put", "batch", "scan", "cache-regions", "scan-abandon"}
 		rec.kind = kinds[rr.Intn(len(kinds))]
 		if cs.Point == "scanner-open" {
 			rec.kind = "scan"
@@ -223,6 +235,16 @@ func runC19Case(c *fw.Ctx, id string, cs c19Case) {
 						rec.err = x.Error
 					}
 				}
+			}
+		case "scan-abandon":
+			// a scanner with lease renewal is opened, read once and then forgotten
+			// (no further Next, no Close): its renewer must end with the client
+			s, _ := hrpc.NewScanStr(ctx, "t", hrpc.NumberOfRows(1), hrpc.RenewInterval(5*time.Millisecond), hrpc.Attribute("opid", []byte(opid)))
+			sc := client.Scan(s)
+			if _, err := sc.Next(); err != nil && err != io.EOF {
+				rec.err = err
+			} else if err == nil {
+				c.Count("abandoned_renewing_scanners", 1)
 			}
 		case "cache-regions":
 			rec.err = client.CacheRegions([]byte("t"))
@@ -468,12 +490,12 @@ func init() {
 		},
 		Floors: func(tier string) map[string]int64 {
 			return map[string]int64{"runs": 200, "close_point_before-dial": 3, "close_point_during-dial": 3, "close_point_during-probe": 3,
-				"close_point_during-meta-lookup": 3, "close_point_during-backoff": 3, "close_point_zk-failing": 3, "close_point_zk-blocked": 3, "lonely_splits_before_close": 3, "close_point_instant": 20,
+				"close_point_during-meta-lookup": 3, "close_point_during-backoff": 3, "close_point_zk-failing": 3, "close_point_zk-blocked": 3, "close_point_during-establish-backoff": 3, "lonely_splits_before_close": 3, "abandoned_renewing_scanners": 5, "close_point_instant": 20,
 				"calls_in_flight_at_close": 50, "post_close_calls": 60, "connections_opened": 60, "goroutine_census_checks": 50}
 		},
 		Run: func(c *fw.Ctx) {
 			r := c.Rand("c19")
-			points := []string{"before-dial", "during-dial", "during-probe", "during-meta-lookup", "during-backoff", "zk-failing", "zk-blocked", "after-lonely-split", "scanner-open", "batch"}
+			points := []string{"before-dial", "during-dial", "during-probe", "during-meta-lookup", "during-backoff", "during-establish-backoff", "zk-failing", "zk-blocked", "after-lonely-split", "scanner-open", "batch"}
 			var cases []c19Case
 			for rep := 0; rep < c.Pick(12, 80); rep++ {
 				for _, p := range points {
